@@ -391,7 +391,7 @@ def rule_shape(rng, name=None, cfg=DEFAULT):
         b1 = b()
         logs = [("Logarithm", h(), b1) for _ in range(rng.randint(2, 3))]
         if rng.random() < 0.5:
-            b2 = b()
+            b2 = b() if rng.random() < 0.6 else (lambda v: v * (1 + 1e-10))(float(S.base_value(b1)))
             logs += [("Logarithm", h(), b2) for _ in range(rng.randint(1, 2))]
         rng.shuffle(logs)
         return ("Add",) + tuple(_interleave(rng, logs, cfg))
@@ -431,7 +431,7 @@ def rule_shape(rng, name=None, cfg=DEFAULT):
         b1 = b()
         ps = [("Exponential", h(), b1) for _ in range(rng.randint(2, 3))]
         if rng.random() < 0.5:
-            b2 = rng.choice([b(), 1])
+            b2 = rng.choice([b(), 1, math.nextafter(float(S.base_value(b1)), math.inf), float(S.base_value(b1)) * (1 - 1e-11)])
             ps += [("Exponential", h(), b2) for _ in range(rng.randint(1, 2))]
         rng.shuffle(ps)
         return ("Multiply",) + tuple(_interleave(rng, ps, cfg))
@@ -495,14 +495,17 @@ def rule_shape(rng, name=None, cfg=DEFAULT):
         return ("NthRoot", ("Negation", h()), n())
     if name == "root_rec":
         return ("NthRoot", ("Reciprocal", h()), n())
+    near = lambda bb: (lambda v: rng.choice([math.nextafter(v, math.inf), v * (1 + 1e-10), v * (1 - 1e-12), v + 1e-9]))(float(S.base_value(bb)))
     if name == "exp_log":
         b1 = b()
-        return ("Exponential", ("Logarithm", h(), b1), b1 if rng.random() < 0.7 else b())
+        r_ = rng.random()
+        return ("Exponential", ("Logarithm", h(), b1), b1 if r_ < 0.55 else (near(b1) if r_ < 0.8 else b()))
     if name == "exp_neg":
         return ("Exponential", ("Negation", h()), rng.choice([b(), 1]))
     if name == "log_exp":
         b1 = b()
-        return ("Logarithm", ("Exponential", h(), b1 if rng.random() < 0.7 else rng.choice([b(), 1])), b1)
+        r_ = rng.random()
+        return ("Logarithm", ("Exponential", h(), b1 if r_ < 0.55 else (near(b1) if r_ < 0.8 else rng.choice([b(), 1]))), b1)
     if name == "log_rec":
         return ("Logarithm", ("Reciprocal", h()), b())
     if name == "log_npow":
@@ -860,3 +863,18 @@ def poly_exact_tree(rng, size):
 
 
 POLY_EXACT_VALUES = [k / 4 for k in range(-32, 33)] + [-3, 2, 5, -1, 0, 7]
+
+
+def collision_twins(rng, names, values=None):
+    """Two points that differ only in one coordinate being -1 in one and -2 in the other: hash(-1) == hash(-2)
+    in CPython, so anything keyed by a hash (rather than by the object) confuses them."""
+    values = values or POINT_VALUES
+    names = list(names)
+    if not names:
+        return []
+    base = {nm: rng.choice(values) for nm in names}
+    k = rng.choice(names)
+    a, b = dict(base), dict(base)
+    flt = rng.random() < 0.5
+    a[k], b[k] = (-1.0, -2.0) if flt else (-1, -2)
+    return [a, b] if rng.random() < 0.5 else [b, a]
